@@ -107,13 +107,40 @@ func ruleEOFInventory(c *Ctx, scope []*ssa.Function) {
 			switch {
 			case toAtoi:
 				c.ok(rid, key, c.P.instrPos(site), "the line is a length/count prefix (parsed with Atoi); a mandatory element/body read follows")
-			case fnName(caller) == "(*proto.Parser).Next":
+			case fnName(caller) == "(*proto.Parser).Next" || linePayloadHelper(c.P, caller, 0):
 				c.ok(rid, key, c.P.instrPos(site), "line-type payload read by Parser.Next (outside the property's request grammar)")
 			default:
 				c.bad(rid, key, c.P.instrPos(site), "the EOF-tolerant line reader is used where nothing forces a further read: a frame cut short before its delimiter is accepted as complete")
 			}
 		}
 	}
+}
+
+// linePayloadHelper: an unexported helper reached only by static calls from Parser.Next (through
+// such helpers) that parses no length prefix itself: it reads the payload of a line-type value.
+func linePayloadHelper(p *Program, f *ssa.Function, depth int) bool {
+	if depth > 3 {
+		return false
+	}
+	sites, ok := p.onlyStaticallyCalled(f)
+	if !ok {
+		return false
+	}
+	hasAtoi := false
+	allInstrs(f, func(ins ssa.Instruction) {
+		if cc := callCommon(ins); cc != nil && nameIn(calleeName(cc), "strconv.Atoi", "strconv.ParseInt", "strconv.ParseUint") {
+			hasAtoi = true
+		}
+	})
+	if hasAtoi {
+		return false
+	}
+	for _, s := range sites {
+		if fnName(s.Parent()) != "(*proto.Parser).Next" && !linePayloadHelper(p, s.Parent(), depth+1) {
+			return false
+		}
+	}
+	return true
 }
 
 func isLineReader(f *ssa.Function) bool {
